@@ -281,7 +281,8 @@ def run(ctx):
                     run_input(ctx, shape.replace('{c}', c), 'odd-white-space', tmpdir=tmpdir, nvariants=1)
         # format-template look-alikes in every payload position (renderers that build their output with str.format / %)
         for t in workloads.TEMPLATES:
-            for pl in ('{', '}', '{r}', '{0}', '{r, echo=FALSE}', '%s', '%(x)s', '{{', '%', '{.python}'):
+            for pl in ('{', '}', '{r}', '{0}', '{r, echo=FALSE}', '%s', '%(x)s', '{{', '%', '{.python}',
+                       'http://[host]:8080/', '//[cdn]/l.png', 'http://[', 'http://[::1', 'http://a:99999999/'):     # (and what URL-splitting helpers refuse)
                 k += 1
                 if k % ctx.nshards == ctx.shard:
                     run_input(ctx, t.replace('{p}', pl).replace('{q}', pl) + '\n', 'format-template', tmpdir=tmpdir, nvariants=1)
